@@ -420,6 +420,57 @@ def wWorldArgumentCause : World :=
 example : wWorldArgumentCause.wf = false ∧
     run wWorldArgumentCause wReqBadJwt [wChain[0], wChain[2]] = .subject "anonymous" := by decide
 
+/-! ### found — and no request to the endpoint can be created for it
+
+The URL of the identity / JWKS / introspection / metadata endpoint may be a template over the credential
+(`…/sessions/{{ .AuthenticationData }}`) resp. over the issuer the token names (`…/realms/{{ .TokenIssuer }}/jwks`).
+A session cookie `%zz`, an issuer `tenant-a%` or one containing a control character is *found* (and, for a token,
+parsed), but `http.NewRequestWithContext` refuses the rendered URL: `endpoint.CreateRequest` reports an internal error
+("failed to create a request instance"), which the authenticators attach to "failed creating request"
+(`GenSite.requestFailed`, `JwtSite.requestFailed`, `IntroSite.requestFailed`; behind a metadata endpoint
+`metadataFailed`). These sites are reached after the credential was found (`verifies`), so all theorems above cover
+them. -/
+
+/-- the world of such credentials -/
+def wWorldUnmakable : World :=
+  { headerAlg := [("head.body.sign", .ES256)],
+    jwt := [(("jwt", "head.body.sign"), .fail .requestFailed (.chain [.kind .internal, .foreign]))],
+    intro := [(("intro", "opaque"), .fail .metadataFailed (.chain [.kind .internal, .chain [.kind .internal, .foreign]]))],
+    gen := [(("gen", "%zz"), .fail .requestFailed (.chain [.kind .internal, .foreign]))] }
+
+def wChainGen : List Authn :=
+  [ { id := "gen", typ := .generic [.cookie "session"] }, { id := "anon", typ := .anonymous "" } ]
+
+def wReqBadSession : Req := { cookies := [("session", "%zz")] }
+
+/-- the cookie is a credential of the `generic` kind, the failure is no argument error, it is final and `anonymous`
+is not consulted; likewise for the token at the `jwt` and the `oauth2_introspection` authenticator -/
+example : wWorldUnmakable.wf = true ∧ usable wWorldUnmakable wChainGen[0] wReqBadSession = true ∧
+    run wWorldUnmakable wReqBadSession wChainGen =
+      .failure (.chain [.kind .internal, .chain [.kind .internal, .foreign]]) ∧
+    runConsulted wWorldUnmakable wReqBadSession wChainGen = 1 ∧
+    runConsulted wWorldUnmakable wReqBadJwt [wChain[0], wChain[2]] = 1 ∧
+    runConsulted wWorldUnmakable wReqOpaque wChainIntro = 1 ∧
+    run wWorldUnmakable wReqNone wChainGen = .subject "anonymous" := by decide
+
+/-- the judgement rejects a run that hands such a request over to `anonymous`, whatever sentinels the error of the
+authenticator matches, and accepts the final rejection -/
+example : judge wWorldUnmakable wReqBadSession wChainGen
+    [("gen", .err [.argument, .internal]), ("anon", .ok "anonymous")] (some (.ok "anonymous")) = false ∧
+    judge wWorldUnmakable wReqBadJwt [wChain[0], wChain[2]]
+    [("jwt", .err [.argument, .internal]), ("anon", .ok "anonymous")] (some (.ok "anonymous")) = false ∧
+    judge wWorldUnmakable wReqBadSession wChainGen [("gen", .err [.internal])] (some (.err [.internal])) = true := by
+  decide
+
+/-- were the endpoint helper to type "the rendered URL is unusable" as an *argument* error (a client error, HTTP 400
+rather than 500 — which looks reasonable in that package), the world would be outside `World.wf` and the unchanged
+loop of the composite would hand the request with the found, unverifiable credential over to `anonymous` -/
+def wWorldUnmakableAsArgument : World :=
+  { wWorldUnmakable with gen := [(("gen", "%zz"), .fail .requestFailed (.chain [.kind .argument, .foreign]))] }
+
+example : wWorldUnmakableAsArgument.wf = false ∧
+    run wWorldUnmakableAsArgument wReqBadSession wChainGen = .subject "anonymous" := by decide
+
 /-- **The loop of the composite is the reference semantics of the specification**: the answer is that of the first
 authenticator that succeeds or finally rejects, the failure of the last one if none does, and exactly the
 authenticators up to that one are consulted. -/
